@@ -264,6 +264,6 @@ pub fn property() -> Property {
         rule: "generated single state-read executions: op in {KeyRange, KeyRangeExtern, PostKeyRange, PostKeyRangeExtern} x key length 0..6 (and 4085) x key-length operand (correct or index-like) x count (0..5, boundary words, random) x memory length (exact fit, one short, roomy, 0, 10240, small) x address (0, small, index-like) x answers (scripted lists: ragged / empty values / fewer or more than requested; map-backed views with different contents per view and contract; scripted errors; failing contracts). Oracle: exactly one recorded request with the right view, contract (solved predicate's or the 4 popped words), key and count; memory and stack equal RefVm's independently computed layout (pairs then values, everything else unchanged, length unchanged); misfit/bad operands => error and no request; state error payload unchanged. Non-trivial = at least one value written and (ragged lengths, non-zero address or count != number returned), or a state error.",
         assumptions: vec!["RefVm implements the documented [addr,len]-pairs-then-values layout independently"],
         health: vec![("sr.request_and_layout", "values-written", 150), ("sr.request_and_layout", "state-error", 30)],
-        subs: vec![prop_sub("sr.request_and_layout", 40_000, 1_500_000, |_| sr_case(), oracle)],
+        subs: vec![prop_sub("sr.request_and_layout", 80_000, 1_500_000, |_| sr_case(), oracle)],
     }
 }
